@@ -167,7 +167,9 @@ def mutate(sch, rnd, g, p):
         elif c[4] and rnd.random() < 0.5:
             new = ("n", c[1], c[2], c[3], c[4][:-1])
         else:
-            new = ("n", c[1], c[2], c[3], c[4] + (c[4][0],)) if c[4] else c
+            # (merge_text: a duplicated text child next to equal-markup text must become one text node -
+            # fragments with unmerged text are not documents)
+            new = ("n", c[1], c[2], c[3], tuple(gen.merge_text(list(c[4]) + [c[4][0]]))) if c[4] else c
     return _replace_at(p, path, new)
 
 
